@@ -423,6 +423,15 @@ fn intersect_pair(a: usize, b: usize, program: &mut Program) -> usize {
                 fields: fields2,
             },
         ) => {
+            // An operand with a back-reference is a variant taken out of its recursive union:
+            // copying its fields into a new type would carry the `^` out of the union it points
+            // to. Keep the left operand then (a superset of the intersection), as for the shapes
+            // this function does not model.
+            if contains_cycle(a, &*program, &mut Vec::new())
+                || contains_cycle(b, &*program, &mut Vec::new())
+            {
+                return if types_overlap(a, b, program) { a } else { never };
+            }
             if name1.is_some() && name2.is_some() && name1 != name2 {
                 return never;
             }
